@@ -48,6 +48,11 @@ CHECKS = {
             'Random histories (appending writes, read(n)/read(), readline, readlines, next/iteration, seek, tell, getvalue, len, rollover) over contents with 1-4 byte UTF-8 characters and all line endings are executed on the io object and on Spooled*IO objects with max_size in {1, 2, len/2, len, len+1, 10^6}; return values, tell() and getvalue() must equal the io object (observation after each step is itself varied all/tell/none because getvalue() seeks and flushes and can mask defects). MultiFileReader: contents partitioned into 1-5 members (BytesIO/StringIO/real files, empty members) read by sized/unsized reads and seek(0) against a cursor over the concatenation; mixed bytes/text must raise ValueError. Known finding: SpooledStringIO line reading follows codecs (splits at every str.splitlines boundary) - excused only when the result equals exactly the codecs-style split and all variants agree.',
             'Trusts io.BytesIO/io.StringIO as reference; SpooledStringIO.readline(size), readline(0) and non-appending writes are outside the generated domain.',
             'DESIGN.md section 2, C18'),
+    'C09': ('exploration',
+            'Hypothesis-generated sequences and parameters per helper against slicing / str.split / str.strip / counting reference oracles; exhaustive small-parameter sweep of chunk_ranges',
+            'Five sub-checks: chunked/chunked_iter (list, tuple, one-shot iterators, str, bytes; size drawn relative to the length; count; fill), windowed/pairwise (+_iter, fill/end), split/split_iter with scalar, set, list, callable and None separators and maxsplit - the oracle is literally str.split on an encoding of the items as characters - plus lstrip/rstrip/strip vs str.*strip, unique/redundant/bucketize/partition against first-occurrence and counting references (callable, attribute-name and list keys, value_transform, key_filter), and chunk_ranges against the clauses of the statement (random large parameters plus an exhaustive sweep of all small parameter tuples: 16 000 in quick, 113 000 in thorough).',
+            'Trusts CPython str.split/str.strip/slicing; parameters outside the documented domain (size < 1 other than the ValueError check, negative maxsplit, overlap >= chunk_size) are not generated.',
+            'DESIGN.md section 2, C09'),
 }
 
 NOT_YET = 'check not built yet in this revision of /verif (work in progress; see DESIGN.md section 8)'
